@@ -20,7 +20,7 @@ shared state (link_successor, refcount/retired_at stores, tree removal, publicat
 except through add_write / add_replacement, which can only fail with ShuttingDown (shutdown flag writers and their callers
 are pinned). Not decided: that reads return the latest accepted value on every tier; equality with a reference map.
 """
-DECIDED = ["(a) strict last-writer-wins gate under the bucket guard", "(b) validate -> reserve -> publish; no error after publish"]
+DECIDED = ["hash index and ordered index receive the same record for the same key at every publication site", "(a) strict last-writer-wins gate under the bucket guard", "(b) validate -> reserve -> publish; no error after publish"]
 NOT_DECIDED = ["(c) reads return the latest accepted value on every tier", "(d) equality with a reference map over all sequences/configurations"]
 ASSUMPTIONS = ["scc's entry API is the only way to mutate the map (true by its types; mutation sites are enumerated)"]
 
@@ -221,7 +221,15 @@ def check_noerr(ctx):
     R.callers_within(ctx, inst + "/shutdown", "WriteBuffer::complete_shutdown", ["WriteBuffer::drop", "WriteBuffer::shutdown"], floor=1)
 
 
+def check_indexes(ctx):
+    """both tiers answer alike only if the two in-memory indexes hold the same generation of every key: every publication /
+    replacement / TTL change / removal / recovered record is mirrored into the ordered index with the same key and record"""
+    from rules import C14
+    C14.check_pair(ctx, "C01.indexes")
+
+
 def check(ctx):
     check_gate(ctx)
     check_validate(ctx)
     check_noerr(ctx)
+    check_indexes(ctx)
